@@ -173,6 +173,21 @@ def rule_E2(run, prog, E):
                    message="a refinement passed to propagate() must be restored when the call returns "
                            "(save, set, try: return ..., finally: restore)", loc=pf.loc(),
                    sample={"setDtRefinement_calls": len(sets)})
+    # the restore goes through setDtRefinement: it only restores if that setter is total, i.e. it
+    # assigns the attributes it manages on every path and for every argument value
+    sf = prog.find_method(rp, "setDtRefinement")
+    top = {norm(t_) for s_ in sf.node.body if isinstance(s_, ast.Assign) for t_ in s_.targets}
+    everywhere = {norm(t_) for n in walk_no_nested(sf.node) if isinstance(n, ast.Assign) for t_ in n.targets
+                  if norm(t_).startswith("self.")}
+    cond = sorted(everywhere - top)
+    early = [n for n in walk_no_nested(sf.node) if isinstance(n, (ast.Return, ast.Raise))
+             and n is not sf.node.body[-1]]
+    run.obligation(rid, "ReducedDensityMatrixPropagator.setDtRefinement", not cond and not early
+                   and {"self.Nref", "self.dt"} <= top, key="restoring-setter-total",
+                   message="propagate() restores the saved refinement by calling setDtRefinement(saved): the "
+                           "setter must assign Nref and dt unconditionally; conditional stores %s / early exits %d "
+                           "leave the per-call refinement in force for later calls" % (cond, len(early)),
+                   loc=sf.loc(), sample={"unconditional": sorted(top), "conditional": cond})
     # _BOOT_DEPH before _APPLY_DEPH in every routine
     for name, f in rp.methods.items():
         ap = [n for n in walk_no_nested(f.node) if isinstance(n, ast.Call) and call_name(n) == "_APPLY_DEPH"]
